@@ -47,11 +47,14 @@ Proof.
     symmetry. apply Nat.mod_small. lia.
 Qed.
 
-(* phases k/16 of a turn, in Cyc32 *)
+(* phases k/16 of a turn, in Cyc32; halving is k / 2, exact for even k only (the check
+   keeps the phases of controlled rotations on even k) *)
 Definition grid : PhaseAlg Cyc32 :=
-  mkPhaseAlg Cyc32 Z 0%Z 8%Z Z.opp c32_phase c32_phase_ok c32_phase_zero c32_phase_half c32_phase_neg.
+  mkPhaseAlg Cyc32 Z 0%Z 8%Z Z.opp Z.div2 c32_phase c32_phase_ok c32_phase_zero c32_phase_half c32_phase_neg.
 
-(* the phase units of an arbitrary StarRing *)
+(* the phase units of an arbitrary StarRing (a general ring has no square roots: [phalve] is
+   a placeholder there, the hypothesis f13_free_at false of the repaired model then asks
+   for units that are their own squares; irrelevant while the switch defect_F13 is on) *)
 Section UnitPhases.
   Variable SR : StarRing.
   Definition uphase : Type := { e : SR | is_phase e }.
@@ -62,6 +65,6 @@ Section UnitPhases.
   Definition up_E (p : uphase) : SR := proj1_sig p.
 
   Definition unit_phases : PhaseAlg SR :=
-    mkPhaseAlg SR uphase up_zero up_half up_neg up_E
+    mkPhaseAlg SR uphase up_zero up_half up_neg (fun p => p) up_E
                (fun p => proj2_sig p) eq_refl eq_refl (fun p => eq_refl).
 End UnitPhases.
